@@ -409,6 +409,53 @@ def rule_r4(ctx) -> List[R.Inst]:
     return insts
 
 
+def _slot_lookup(fn) -> List[R.Inst]:
+    """the target notes that may receive the sounds of time t are the rows whose time EQUALS t: a mask `K == t`, or the run
+    [searchsorted(K, t, "left"), searchsorted(K, t, "right")) of the sorted times — both ends searched with t itself"""
+    rid = "C18.R6"
+    file = None
+    out: List[R.Inst] = []
+    src_loop = next((n for n in ast.walk(fn.node) if isinstance(n, ast.For) and unparse(n.iter) == "df_src" and isinstance(n.target, ast.Tuple)), None)
+    if src_loop is None or not isinstance(src_loop.target.elts[0], ast.Name):
+        return out
+    t = src_loop.target.elts[0].id
+    ss = [n for n in ast.walk(src_loop) if isinstance(n, ast.Call) and call_name(n) in ("searchsorted", "bisect_left", "bisect_right", "bisect")]
+    masks = [n for n in ast.walk(src_loop) if isinstance(n, ast.Compare) and len(n.ops) == 1 and
+             any(isinstance(x, ast.Name) and x.id == t for x in (n.left, n.comparators[0])) and
+             not any(isinstance(x, ast.Constant) for x in (n.left, n.comparators[0]))]
+    file_rel = None
+    if ss:
+        def side_of(c):
+            if call_name(c) == "bisect_left":
+                return "left"
+            if call_name(c) in ("bisect_right", "bisect"):
+                return "right"
+            k = next((k.value for k in c.keywords if k.arg == "side"), None)
+            return k.value if isinstance(k, ast.Constant) else ("left" if k is None else None)
+        keys = []
+        for c in ss:
+            args = c.args[1:] if isinstance(c.func, ast.Attribute) and isinstance(c.func.value, ast.Name) and c.func.value.id in ("np", "numpy", "bisect") or isinstance(c.func, ast.Name) else c.args
+            keys.append((unparse(args[0]) if args else "?", side_of(c), c))
+        sides = sorted(s_ for _, s_, _ in keys if s_)
+        bad = [k for k, _, _ in keys if k != t]
+        if bad:
+            out.append(R.viol(rid, "slot-lookup", "", ss[0].lineno,
+                              f"the run of target notes for time '{t}' is searched with '{bad[0]}': notes whose time is not exactly '{t}' "
+                              f"(fractional times) receive the sounds of a time the source has nothing at", construct=f"searchsorted key {bad[0]}"))
+        elif len(keys) == 2 and sides == ["left", "right"]:
+            out.append(R.ok(rid, "slot-lookup", "", ss[0].lineno, idiom=f"[searchsorted(times, {t}, left), searchsorted(times, {t}, right)): exactly the rows at {t}"))
+        else:
+            out.append(R.undec(rid, "slot-lookup", "", ss[0].lineno, f"search of the target rows at '{t}' not recognised: {[(k, s_) for k, s_, _ in keys]}"))
+    elif masks:
+        bad = [m for m in masks if not isinstance(m.ops[0], ast.Eq)]
+        if bad:
+            out.append(R.viol(rid, "slot-lookup", "", bad[0].lineno,
+                              f"target notes are selected by '{unparse(bad[0])}', not by equality with the source's time", construct=unparse(bad[0])))
+        else:
+            out.append(R.ok(rid, "slot-lookup", "", masks[0].lineno, idiom=f"rows whose time == {t}"))
+    return out
+
+
 def rule_r6(ctx) -> List[R.Inst]:
     """same-time matching: source and target times are compared as they are (no one-sided rounding / casting)"""
     M = ctx.M
@@ -437,9 +484,12 @@ def rule_r6(ctx) -> List[R.Inst]:
         if isinstance(t, ast.Subscript) and C.const_str(t.slice) == "offset":
             xf[side[nm]].append(("assign", n))
     a, b = [k for k, _ in xf["source"]], [k for k, _ in xf["target"]]
+    look = _slot_lookup(fn)
+    for i_ in look:
+        i_.file = file
     if a == b:
         return [R.ok(rid, "same-time-key", file, fn.node.lineno,
-                     idiom="offsets of both charts are compared as stored" if not a else f"the same transforms {a} on both sides")]
+                     idiom="offsets of both charts are compared as stored" if not a else f"the same transforms {a} on both sides")] + look
     which = "source" if len(a) > len(b) else "target"
     node = xf[which][0][1]
     return [R.viol(rid, "same-time-key", file, node.lineno,
@@ -515,6 +565,186 @@ def rule_r5(ctx) -> List[R.Inst]:
     return insts
 
 
+def rule_r7(ctx) -> List[R.Inst]:
+    """sound-kind consistency, split -> count -> recombine: every sound bit B of the source (clap 2, finish 4, whistle 8) is split
+    into its own column, counted per (time, volume) and written back bit by bit.  For each kind the three places must agree:
+    (split) the column is computed from `hitsound_set & B` with ITS constant; (unit) the values summed are B per sound and the sum
+    is divided by the same B, or they are 1 per sound and the sum is taken as it is — so that the count is the number of sounds;
+    (recombine) the count that is decremented / compared guards the addition of the SAME constant B.  A swapped pair, the
+    neighbour's constant, or a count that is B times too large turns claps into finishes or invents sounds."""
+    M = ctx.M
+    rid = "C18.R7"
+    fn = _fn(ctx)
+    file = M.mods[fn.mod].rel
+    insts: List[R.Inst] = []
+
+    def once(name):
+        ds = [x.value for x in ast.walk(fn.node) if isinstance(x, ast.Assign) and len(x.targets) == 1 and isinstance(x.targets[0], ast.Name) and
+              x.targets[0].id == name]
+        return ds[0] if len(ds) == 1 else None
+
+    def cval(e, depth=0) -> Optional[int]:
+        if isinstance(e, ast.Constant) and isinstance(e.value, int) and not isinstance(e.value, bool):
+            return e.value
+        if isinstance(e, ast.Name) and depth < 3:
+            d = once(e.id)
+            if d is not None:
+                return cval(d, depth + 1)
+            try:
+                v = M.lit(fn.mod, e)
+                return v if isinstance(v, int) and not isinstance(v, bool) else None
+            except Exception:
+                return None
+        return None
+
+    def strip_repr(e):
+        while True:
+            if isinstance(e, ast.Call) and isinstance(e.func, ast.Attribute) and e.func.attr in ("astype", "to_numpy", "copy") :
+                if e.func.attr == "astype" and e.args and "bool" in unparse(e.args[0]):
+                    return e
+                e = e.func.value
+            else:
+                return e
+    # ---- (split) columns computed from <bits> & B
+    split: Dict[str, Tuple[int, Optional[int], ast.AST]] = {}
+    for n in ast.walk(fn.node):
+        if not (isinstance(n, ast.Assign) and len(n.targets) == 1 and isinstance(n.targets[0], ast.Subscript) and C.const_str(n.targets[0].slice)):
+            continue
+        ands = [x for x in ast.walk(n.value) if isinstance(x, ast.BinOp) and isinstance(x.op, ast.BitAnd) and
+                (cval(x.left) is not None or cval(x.right) is not None)]
+        if not ands:
+            continue
+        b = cval(ands[0].right) if cval(ands[0].right) is not None else cval(ands[0].left)
+        if b is None or b <= 0 or b & (b - 1):
+            continue
+        e = strip_repr(n.value)
+        unit: Optional[int] = None
+        if isinstance(e, ast.Call) and call_name(e) == "where" and len(e.args) == 3:
+            a1, a0 = cval(e.args[1]), cval(e.args[2])
+            unit = a1 if a1 is not None and a0 == 0 else None
+        elif isinstance(e, ast.Compare) or (isinstance(e, ast.Call) and call_name(e) == "astype"):
+            unit = 1
+        elif isinstance(e, ast.BinOp) and isinstance(e.op, ast.BitAnd):
+            unit = b
+        elif isinstance(e, ast.BinOp) and isinstance(e.op, (ast.FloorDiv, ast.Div)) and cval(e.right) == b and isinstance(strip_repr(e.left), ast.BinOp):
+            unit = 1
+        split[C.const_str(n.targets[0].slice)] = (b, unit, n)
+    if len(split) < 2:
+        return [R.undec(rid, "split", file, fn.node.lineno, f"split of the sound bits into columns not found ({sorted(split)})")]
+    # ---- (count) K <- column, with what divisor
+    counts: Dict[str, Tuple[str, int, ast.AST]] = {}     # count variable -> (column, divisor, node)
+    # positional row unpacking: for a, b, c in V.itertuples(index=False): the columns of V in order
+    for lp in ast.walk(fn.node):
+        if isinstance(lp, ast.For) and isinstance(lp.iter, ast.Call) and call_name(lp.iter) == "itertuples" and isinstance(lp.target, ast.Tuple):
+            no_index = any(k.arg == "index" and isinstance(k.value, ast.Constant) and k.value.value is False for k in lp.iter.keywords)
+            src = lp.iter.func.value
+            cols = None
+            for _ in range(3):
+                if isinstance(src, ast.Name):
+                    # the last selection / aggregation bound to the name before the loop
+                    ds = sorted((x for x in ast.walk(fn.node) if isinstance(x, ast.Assign) and len(x.targets) == 1 and isinstance(x.targets[0], ast.Name) and
+                                 x.targets[0].id == src.id and x.lineno <= lp.lineno), key=lambda x: x.lineno)
+                    if not ds:
+                        break
+                    src = ds[-1].value
+                    continue
+                if isinstance(src, ast.Subscript) and isinstance(src.slice, ast.List) and all(C.const_str(x) for x in src.slice.elts):
+                    cols = [C.const_str(x) for x in src.slice.elts]
+                elif isinstance(src, ast.Call) and call_name(src) == "agg" and src.args and isinstance(src.args[0], ast.Dict):
+                    g = src.func.value
+                    keycol = C.const_str(g.args[0]) if isinstance(g, ast.Call) and call_name(g) == "groupby" and g.args else None
+                    as_ix = isinstance(g, ast.Call) and any(k.arg == "as_index" and isinstance(k.value, ast.Constant) and k.value.value is False for k in g.keywords)
+                    if keycol and as_ix:
+                        cols = [keycol] + [C.const_str(k) for k in src.args[0].keys]
+                break
+            if cols and no_index and len(cols) == len(lp.target.elts):
+                for t, c in zip(lp.target.elts, cols):
+                    if isinstance(t, ast.Name) and c in split:
+                        counts[t.id] = (c, 1, lp)
+    for n in ast.walk(fn.node):
+        if isinstance(n, ast.Assign) and len(n.targets) == 1 and isinstance(n.targets[0], ast.Name):
+            v = n.value
+            while isinstance(v, ast.Call) and isinstance(v.func, ast.Name) and v.func.id in ("int", "round") and len(v.args) == 1:
+                v = v.args[0]
+            div = 1
+            if isinstance(v, ast.BinOp) and isinstance(v.op, (ast.Div, ast.FloorDiv)) and cval(v.right) is not None:
+                div, v = cval(v.right), v.left
+            col = None
+            if isinstance(v, ast.Subscript) and C.const_str(v.slice) in split:
+                col = C.const_str(v.slice)
+            elif isinstance(v, ast.Attribute) and v.attr in split:
+                col = v.attr
+            elif isinstance(v, ast.Name) and v.id in counts and v.id == n.targets[0].id:
+                col = counts[v.id][0]           # re-binding of a positional variable: claps = int(claps / B)
+            if col is not None:
+                counts[n.targets[0].id] = (col, div, n)
+    # ---- (recombine) the constant added under a count
+    recomb: Dict[str, List[Tuple[int, ast.AST, Optional[str]]]] = {}
+    for n in ast.walk(fn.node):
+        if isinstance(n, ast.If) and isinstance(n.test, ast.Name) and n.test.id in counts:
+            dec = any(isinstance(x, ast.AugAssign) and isinstance(x.op, ast.Sub) and isinstance(x.target, ast.Name) and x.target.id == n.test.id for x in n.body)
+            adds = [cval(x.value) for x in n.body if isinstance(x, ast.AugAssign) and isinstance(x.op, (ast.Add, ast.BitOr)) and cval(x.value) is not None]
+            if dec and len(adds) == 1:
+                recomb.setdefault(n.test.id, []).append((adds[0], n, None))
+        if isinstance(n, ast.IfExp) and isinstance(n.test, ast.Compare) and len(n.test.ops) == 1 and cval(n.body) is not None and cval(n.orelse) == 0:
+            l, r_, op = n.test.left, n.test.comparators[0], n.test.ops[0]
+            if isinstance(op, ast.Lt) and isinstance(r_, ast.Name) and r_.id in counts:
+                recomb.setdefault(r_.id, []).append((cval(n.body), n, unparse(l)))
+            elif isinstance(op, ast.Gt) and isinstance(l, ast.Name) and l.id in counts:
+                recomb.setdefault(l.id, []).append((cval(n.body), n, unparse(r_)))
+    by_col = {}
+    for k, (col, div, node) in counts.items():
+        by_col.setdefault(col, []).append((k, div, node))
+    for col, (b, unit, node) in sorted(split.items()):
+        key = f"sound:{col}"
+        ks = by_col.get(col, [])
+        if unit is None:
+            insts.append(R.undec(rid, key, file, node.lineno, f"value of the split column not recognised: {unparse(node.value)[:80]}"))
+            continue
+        if not ks:
+            twice = sorted(c_ for c_, v_ in by_col.items() if len(v_) > 1)
+            if twice:
+                insts.append(R.viol(rid, key, file, node.lineno,
+                                    f"the sounds of '{col}' are never counted ('{twice[0]}' is counted twice instead): they are dropped",
+                                    construct=f"{col} not counted; {twice[0]} counted by {sorted(k_ for k_, _, _ in by_col[twice[0]])}"))
+            else:
+                insts.append(R.undec(rid, key, file, node.lineno, f"count of '{col}' per volume group not found"))
+            continue
+        probs = []
+        rc_: list = []
+        undec_k = None
+        for k, div, knode in ks:
+            if unit != div:
+                probs.append(f"each sound contributes {unit} to the sum of '{col}' and the sum is divided by {div}: the count '{k}' is "
+                             f"{'%g' % (unit / div)} per sound, so {'sounds are invented' if unit > div else 'sounds are lost'} whenever the target has room")
+            rk = recomb.get(k, [])
+            if not rk:
+                undec_k = (k, knode)
+            rc_ += rk
+            for const, rnode, _ in rk:
+                if const != b:
+                    probs.append(f"'{col}' is the bit {b} of the source, but a sound counted by '{k}' is written back as {const}")
+        k, div, knode = ks[0]
+        if undec_k is not None and not probs:
+            insts.append(R.undec(rid, key, file, undec_k[1].lineno, f"where the count '{undec_k[0]}' is turned back into a bit was not found"))
+            continue
+        if probs:
+            insts.append(R.viol(rid, key, file, (rc_[0][1] if any(c_ != b for c_, _, _ in rc_) else knode).lineno, "; ".join(probs),
+                                construct=f"{col}: bit {b}, unit {unit}, divisor {div}, written back as {sorted({c_ for c_, _, _ in rc_})}"))
+        else:
+            insts.append(R.ok(rid, key, file, node.lineno, idiom=f"bit {b}: {unit} per sound / {div}, counted by '{k}', written back as {b}"))
+    # closed form: every kind is tested against the SAME running index
+    idx = {x for v in recomb.values() for _, _, x in v if x is not None}
+    if len(idx) > 1:
+        n0 = next(rn for v in recomb.values() for _, rn, x in v if x is not None)
+        insts.append(R.viol(rid, "sound:index", file, n0.lineno,
+                            f"the kinds of one slot are decided against different indices {sorted(idx)}: the n-th note of a volume group must get "
+                            f"the n-th clap, finish and whistle of that group", construct=f"indices {sorted(idx)}"))
+    elif len(idx) == 1:
+        insts.append(R.ok(rid, "sound:index", file, fn.node.lineno, idiom=f"all kinds are tested against the one index '{next(iter(idx))}'"))
+    return insts
+
+
 def rule_dep(ctx):
     """obligations inherited from shared code reached through the call graph (sa/props/deps.py)"""
     from .deps import dep_insts
@@ -527,6 +757,7 @@ SPECS = [
     RuleSpec("C18.R3", rule_r3, 5, "A8", "every named sample reaches exactly one sink on every path, with no early exit"),
     RuleSpec("C18.R4", rule_r4, 7, "A2", "sound columns of the result are cleared before slotting"),
     RuleSpec("C18.R6", rule_r6, 1, "A1", "source and target times are matched as stored (no one-sided transform)"),
+    RuleSpec("C18.R7", rule_r7, 3, "A1", "sound kinds stay themselves through split -> count -> recombine (same bit constant, count = number of sounds)"),
     RuleSpec("C18.R5", rule_r5, 3, "A2", "bit tests on sound columns act on integer data for every history of the chart"),
     RuleSpec("C18.D", rule_dep, 1, "M0", "rules of the shared code (timing engine, list classes, stacker) that the operations of this property reach"),
 ]
@@ -540,5 +771,5 @@ META = dict(
         "time sends the sample to exactly one sink (a target note or an event sample at that time) and continues; and "
         "each sound column of the result must be cleared before slotting (decided with the effect summary of "
         "reset_samples, which shows whether the reset reaches the note frames)."),
-    not_decided="per-time multiplicity arithmetic (bit split, counts), which of several notes at one time receives a sound",
+    not_decided="that no MORE sounds than the source had are written when several volume groups share a time (the slot arithmetic across groups), which of several notes at one time receives a sound",
 )
